@@ -163,15 +163,20 @@ Theorem C08_chain_slice_same : forall (A : Type) (O : NumOps A),
 Proof. exact @chain_slice_fwd. Qed.
 Print Assumptions C08_chain_slice_same.
 
-(* merge_chains (any nesting depth, both directions) computes the same function.
-   Partial w.r.t. the property: stated for [den]; by C08_run_is_den it transfers to [run] whenever both chains
-   construct with the same declared shapes (that they do is checked on the real objects by the tie). *)
-Theorem C08_merge_chains_same_partial : forall (A : Type) (O : NumOps A),
+(* merge_chains (any nesting depth) never changes the function: it constructs whenever the chain does, declares the
+   same shapes, and every method returns the same result on EVERY input (malformed ones are rejected alike). *)
+Theorem C08_merge_chains_same : forall (A : Type) (O : NumOps A),
   (forall a, n_add O a (zero O) = a) ->
   (forall a1 a2 a3 : A, n_add O a1 (n_add O a2 a3) = n_add O (n_add O a1 a2) a3) ->
-  forall (bs : list (bij A)) d x c, den O (merge_chains bs) d x c = den O (Chain bs) d x c.
-Proof. exact @merge_chains_same. Qed.
-Print Assumptions C08_merge_chains_same_partial.
+  forall (bs : list (bij A)) sg d x c, sig_of (Chain bs) = Ok sg ->
+  run O (merge_chains bs) d x c = run O (Chain bs) d x c.
+Proof. exact @merge_chains_run. Qed.
+Print Assumptions C08_merge_chains_same.
+
+Theorem C08_merge_chains_same_shapes : forall (A : Type) (bs : list (bij A)) sg,
+  sig_of (Chain bs) = Ok sg -> sig_of (merge_chains bs) = Ok sg.
+Proof. exact @merge_chains_sig. Qed.
+Print Assumptions C08_merge_chains_same_shapes.
 
 (* merge_chains terminates flat: no Chain is left among the children (any nesting depth). *)
 Theorem C08_merge_chains_flat : forall (A : Type) (bs : list (bij A)),
